@@ -154,6 +154,18 @@ func (p *Program) calleeSet(fn *types.Func, sets map[*types.Func]map[string]bool
 }
 
 // contractKeys approximates a modifies clause at key granularity (by the types of its designators).
+// contractKeysNoCache computes the keys of tmp.Modifies in the scope of the real contract owner.
+func (p *Program) contractKeysNoCache(tmp, owner *Contract) map[string]bool {
+	saved := owner.Modifies
+	savedG := owner.ModGiven
+	delete(p.contractKeyCache, owner)
+	owner.Modifies, owner.ModGiven = tmp.Modifies, true
+	out := p.contractKeys(owner)
+	delete(p.contractKeyCache, owner)
+	owner.Modifies, owner.ModGiven = saved, savedG
+	return out
+}
+
 func (p *Program) contractKeys(c *Contract) map[string]bool {
 	if ks, ok := p.contractKeyCache[c]; ok {
 		return ks
@@ -385,6 +397,21 @@ func (p *Program) scanWrites(fi *FuncInfo, body ast.Node, mi *modInfo) {
 					case types.FieldVal:
 						if fi.C == nil || !fi.C.PureFields[f.Sel.Name] {
 							mi.direct["*"] = true
+						} else if len(fi.C.CallbackMods[f.Sel.Name]) > 0 {
+							if sc, err := p.scopeFor(fi.C); err == nil {
+								for _, m := range fi.C.CallbackMods[f.Sel.Name] {
+									if ks, ok := p.wildcardKeys(fi.C, m, sc); ok {
+										for _, k := range ks {
+											mi.direct[k] = true
+										}
+									} else {
+										tmp := &Contract{Key: fi.C.Key, Pkg: fi.C.Pkg, File: fi.C.File, Line: fi.C.Line, ParamName: fi.C.ParamName, RecvName: fi.C.RecvName, Modifies: []string{m}, ModGiven: true}
+										for k := range p.contractKeysNoCache(tmp, fi.C) {
+											mi.direct[k] = true
+										}
+									}
+								}
+							}
 						}
 					}
 				} else if o, ok := info.Uses[f.Sel].(*types.Func); ok {
